@@ -713,7 +713,9 @@ func checkAppendDecimal(t fataler, f float64, dec int, got string) string {
 
 var symbols = []rune{'.', ',', '\'', ' ', '_', ' ', '٫', '٬', ' ', '€', '\U0001F600', '\U00010000', 'x',
 	// the ends of the UTF-8 length classes and the runes that decoders treat specially
-	'\u007f', '\u0080', '\u07ff', '\u0800', '\ufffc', '\ufffd', '\ufffe', '\uffff', '\U0010ffff', '\u2028', '\ufeff', '\u00ad'}
+	'\u007f', '\u0080', '\u07ff', '\u0800', '\ufffc', '\ufffd', '\ufffe', '\uffff', '\U0010ffff', '\u2028', '\ufeff', '\u00ad',
+	// Latin-1 symbols whose code point equals the first byte of another symbol's encoding (U+00E2 and E2 80 AF), and those others
+	'\u00c2', '\u00c3', '\u00e0', '\u00e2', '\u00ef', '\u00f0', '\u00f4', '\u00a0', '\u202f', '\u00c0', '\U000f0000'}
 
 func TestProp_Number(t *testing.T) {
 	ev.Describe("Number", "int64 x dec 0..18 (one in ten: 19..70) x groupSize 0..6 x distinct group/decimal symbols of 1-4 UTF-8 bytes; oracle: ParseNumber(AppendNumber(..)) == (num, dec, len), no NUL/stale byte in the output, digits grouped from the right in groups of groupSize, prefix preserved; non-trivial = >= 4 integer digits or dec > 0")
